@@ -27,18 +27,23 @@ def tri_tokens(tris):
     return L([np.asarray(t, dtype=float) for t in tris])
 
 
-def observe(v):
+def observe(v, ctx=None):
     import coxeter
+    import history
+    from common import read_shuffled
     p = coxeter.shapes.ConvexPolyhedron(v)
-    obs = {
-        "volume": float(p.volume),
-        "area": float(p.surface_area),
-        "centroid": np.array(p.centroid, dtype=float),
-        "inertia": np.array(p.inertia_tensor, dtype=float),
-        "face_areas": np.array(p.get_face_area(), dtype=float),
-        "face_centroids": np.array(p.face_centroids, dtype=float),
-        "total_area": float(p.get_face_area("total")),
-    }
+    # a third of the cases: the same polyhedron reached through a history (scaled, shifted copy; everything read once;
+    # size and centroid setters), and always: the measures read in an order drawn per case
+    p, how = history.maybe_via_history(p, history.rng_for(v), 0.33, ctx)
+    obs, _order = read_shuffled({
+        "volume": lambda: float(p.volume),
+        "area": lambda: float(p.surface_area),
+        "centroid": lambda: np.array(p.centroid, dtype=float),
+        "inertia": lambda: np.array(p.inertia_tensor, dtype=float),
+        "face_areas": lambda: np.array(p.get_face_area(), dtype=float),
+        "face_centroids": lambda: np.array(p.face_centroids, dtype=float),
+        "total_area": lambda: float(p.get_face_area("total")),
+    }, np.asarray(v, dtype=float).tolist())
     return p, obs
 
 
@@ -48,7 +53,7 @@ def eval_case(ctx, case):
     off = float(np.linalg.norm(v.mean(axis=0)))
     Ls = d + off
     try:
-        p, obs = observe(v)
+        p, obs = observe(v, ctx)
     except Exception as e:  # a valid convex set must construct
         ctx.fail("ConvexPolyhedron.__init__:raises", "constructor raised %s on a set in convex position" % exc_kind(e),
                  case, repr(e))
